@@ -490,6 +490,60 @@ func checkC17(p *Prog, r *Report) {
 			isNo = ifi
 		}
 	}
+	/* What that test looks for has to arrive: where the per-file converter
+	reports "no filter matched", the sentinel is the error or is wrapped
+	with %w (an Errorf with %s or %v keeps its text and loses its identity). */
+	if nil != isNo && nil != fr {
+		carried, lost := false, ssa.Instruction(nil)
+		eachInstr(fr, func(i ssa.Instruction) {
+			ret, ok := i.(*ssa.Return)
+			if !ok || 0 == len(ret.Results) {
+				return
+			}
+			for _, l := range phiLeaves(ret.Results[len(ret.Results)-1]) {
+				if eNo == globalLoadName(l.V) {
+					carried = true
+					continue
+				}
+				c, isCall := l.V.(*ssa.Call)
+				if !isCall {
+					continue
+				}
+				switch calleeName(c.Common()) {
+				case "fmt.Errorf":
+					f, isC := constString(c.Common().Args[0])
+					if !isC {
+						continue
+					}
+					verbs := errorfVerbs(f)
+					for k, e := range appendedElems(c.Common().Args[len(c.Common().Args)-1]) {
+						if eNo != globalLoadName(stripConv(e, false)) {
+							continue
+						}
+						if k < len(verbs) && 'w' == verbs[k] {
+							carried = true
+						} else {
+							lost = i
+						}
+					}
+				case "errors.Join":
+					for _, e := range appendedElems(c.Common().Args[len(c.Common().Args)-1]) {
+						if eNo == globalLoadName(stripConv(e, false)) {
+							carried = true
+						}
+					}
+				}
+			}
+		})
+		switch {
+		case nil != lost && !carried:
+			rPass.Bad(fnName(fr)+":sentinel-carried", posOf(lost), "the no-converter error is formatted into a new error without %%w: errors.Is no longer finds it, so an unmatched single file is an error instead of being passed through")
+		case !carried:
+			rPass.Bad(fnName(fr)+":sentinel-carried", fr.Pos(), "the per-file converter never returns (or wraps) errNoConverter: the pass-through case cannot be recognised")
+		default:
+			rPass.OK(fnName(fr)+":sentinel-carried", fr.Pos(), "errNoConverter is returned itself or wrapped with %%w")
+		}
+	}
 	if nil == isNo {
 		rPass.Bad(fnName(fs1)+":unmatched", fs1.Pos(), "fromSingleFile does not recognise the no-converter case: an unmatched file is an error instead of being passed through")
 	} else {
@@ -560,6 +614,42 @@ func checkC17(p *Prog, r *Report) {
 	}
 	if 0 == bad {
 		rPass.OK(fnName(from)+":order", from.Pos(), "sources are converted sequentially in argument order")
+	}
+	checkSourcesConverted(p, rPass)
+}
+
+// checkSourcesConverted: every source named is itself handed to the
+// per-source converter, so that one which does not exist fails there.
+// Expanding the names first (filepath.Glob, fs.Glob) turns a missing source
+// into no source at all: no error, an empty payload.
+func checkSourcesConverted(p *Prog, ru *Rule) {
+	from := p.Func(sffPkg, "Converter", "From")
+	if nil == from {
+		ru.Unproven("Converter.From", token.NoPos, "not found")
+		return
+	}
+	var glob ssa.Instruction
+	for _, f := range withAnons(from) {
+		eachInstr(f, func(i ssa.Instruction) {
+			c := callCommon(i)
+			if nil == c || nil != glob {
+				return
+			}
+			switch calleeName(c) {
+			case "path/filepath.Glob", "io/fs.Glob", "(io/fs.GlobFS).Glob":
+				for _, a := range c.Args {
+					if rootedInParams(a, from) {
+						glob = i
+					}
+				}
+			}
+		})
+	}
+	c := fnName(from) + ":every-source-converted"
+	if nil != glob {
+		ru.Bad(c, posOf(glob), "the sources named are expanded as patterns before they are converted: one which does not exist matches nothing and is skipped without an error (an empty payload, exit status 0 when asked to print it)")
+	} else {
+		ru.OK(c, from.Pos(), "each source named is converted as named")
 	}
 }
 
@@ -1100,6 +1190,49 @@ func checkCtrlIGenerator(p *Prog, r *Report, ru *Rule) {
 			ru.Unproven(c, g.Pos(), "%d calls of Converter.From in the generator, one expected", nfrom)
 			continue
 		}
+		/* What is converted is what the operator named, by the library's own
+		way of opening it: the source handed to From is the flag's value,
+		and main does not put a file system of its own under the
+		converter (fs.Sub/os.DirFS of a parent globs and stats
+		differently: a directory called funcs[v2], a FIFO in it). */
+		srcOK := true
+		for _, e := range appendedElems(from.Common().Args[len(from.Common().Args)-1]) {
+			isFlag := "" != flagNameOf(resolveFree(e))
+			if fc, isCall := resolveFree(e).(*ssa.Call); isCall && strings.HasPrefix(calleeName(fc.Common()), "flag.") {
+				isFlag = true /* the flag's variable, captured */
+				for _, ref := range *fc.Referrers() {
+					if st, isSt := ref.(*ssa.Store); isSt {
+						if _, isCell := resolveFree(st.Addr).(*ssa.Alloc); st.Addr == ssa.Value(fc) || !isCell {
+							isFlag = false
+						}
+					}
+				}
+			}
+			if !isFlag {
+				if _, isP := stripConv(resolveCell(resolveFree(e)), false).(*ssa.Parameter); !isP {
+					srcOK = false
+				}
+			}
+		}
+		if !srcOK {
+			ru.Bad(c+":source", posOf(from), "the source the generator converts is not the -ctrl-i value itself (%s)", rootsString(valueRoots(from.Common().Args[len(from.Common().Args)-1], nil)))
+		} else {
+			ru.OK(c+":source", posOf(from), "the flag's value, as given")
+		}
+		for _, f := range p.Funcs() {
+			if nil == f.Pkg || f.Pkg != rm.Pkg {
+				continue
+			}
+			eachInstr(f, func(i ssa.Instruction) {
+				st, isSt := i.(*ssa.Store)
+				if !isSt {
+					return
+				}
+				if fv, base := fieldAddrOf(st.Addr); nil != fv && "FS" == fv.Name() && typeIs(base.Type(), ModPath+"/"+sffPkg, "Converter") {
+					ru.Bad(c+":converter-fs", posOf(st), "main gives the Ctrl+I converter a file system of its own (Converter.FS): names are then globbed and examined relative to it, not as the library does for the source named")
+				}
+			})
+		}
 		fromErr := extractOf(from, 1)
 		bad := 0
 		eachInstr(g, func(i ssa.Instruction) {
@@ -1183,4 +1316,31 @@ func checkCtrlIGenerator(p *Prog, r *Report, ru *Rule) {
 			ru.OK(c, g.Pos(), "returns Converter.From's payload and error (or a fresh error of its own configuration) and nothing else")
 		}
 	}
+}
+
+
+// errorfVerbs: the verb letters of a format, in argument order (explicit
+// argument indexes are not handled: such formats yield nil).
+func errorfVerbs(f string) []byte {
+	var out []byte
+	for i := 0; i < len(f); i++ {
+		if '%' != f[i] {
+			continue
+		}
+		i++
+		for i < len(f) && strings.ContainsRune("+-# 0123456789.", rune(f[i])) {
+			i++
+		}
+		if i >= len(f) {
+			break
+		}
+		if '[' == f[i] {
+			return nil
+		}
+		if '%' == f[i] {
+			continue
+		}
+		out = append(out, f[i])
+	}
+	return out
 }
